@@ -78,7 +78,10 @@ Fixpoint canon_dir (fuel : nat) (tbl : matchtable) (d : dir) : dir :=
                                         | [v; k] => if seqb v "$match_key" then [v; ser_matches tbl k] else a
                                         | _ => a
                                         end else a in
-          Dir n a' (match b with Some body => Some (map (canon_dir f tbl) body) | None => None end)
+          (* the order of the servers of an upstream (and of the lines of a split_clients or map block with distinct
+             keys) does not change what NGINX does: compare them sorted *)
+          let body' := match b with Some body => Some (map (canon_dir f tbl) body) | None => None end in
+          Dir n a' (if seqb n "upstream" then match body' with Some l => Some (sort_dirs l) | None => None end else body')
       end
   end.
 
